@@ -61,6 +61,8 @@ def sites_c04(inf, levels=None, coords=False):
                     for delta in (1, -1):
                         out.append({"op": "idxline", "lv": lv, "box": bi, "what": what, "dim": d, "delta": delta})
             out.append({"op": "idxline_delete", "lv": lv, "box": bi})
+            out.append({"op": "cellh_nonascii", "lv": lv, "box": bi, "line": "idx"})
+            out.append({"op": "cellh_nonascii", "lv": lv, "box": bi, "line": "fod"})
             out.append({"op": "idxline_garble", "lv": lv, "box": bi})
             out.append({"op": "fod_delete", "lv": lv, "box": bi})
             for how in ("garble", "nofile", "otherfile", "beyond", "payload", "negative", "otherbox", "empty"):
@@ -95,7 +97,8 @@ def sites_c20(inf, levels=None):
             out.append({"op": "swap_entries", "lv": lv, "box": bi})
         for how in ("crlf", "trailing_lines", "count_lead0", "count_blank", "ncomp_blank", "no_tables"):
             out.append({"op": "cellh_text", "lv": lv, "how": how})
-    for how in ("crlf", "trailing_lines", "dblblank_bounds"):
+    for how in ("crlf", "trailing_lines", "dblblank_bounds", "dx_extra_token", "dx_extra_token_finest", "geo_extra_token",
+                "steps_extra_token", "time_blank"):
         out.append({"op": "header_text", "how": how})
     return out
 
@@ -152,6 +155,16 @@ def apply(path, inf, mut):
             nv = int(L[1])
             i = 2 + nv + 3
             L[i] = L[i].replace(b" ", b"  ")
+            raw = b"\n".join(L)
+        elif mut["how"] in ("dx_extra_token", "dx_extra_token_finest", "geo_extra_token", "steps_extra_token", "time_blank"):
+            L = raw.split(b"\n")
+            nv = int(L[1])
+            finest = int(L[2 + nv + 2])
+            i = {"dx_extra_token": 2 + nv + 8, "dx_extra_token_finest": 2 + nv + 8 + finest, "geo_extra_token": 2 + nv + 4,
+                 "steps_extra_token": 2 + nv + 7, "time_blank": 2 + nv + 1}[mut["how"]]
+            L[i] = (L[i].rstrip() + b" 0.5") if mut["how"] != "time_blank" else (b" " + L[i] + b" ")
+            if mut["how"] == "steps_extra_token":
+                L[i] = L[i][:-4] + b" 7"
             raw = b"\n".join(L)
         with open(hp, "wb") as f:
             f.write(raw)
@@ -251,6 +264,11 @@ def apply(path, inf, mut):
         C[il] = _fmt_idx(lo, hi, nd)
     elif op == "idxline_delete":
         del C[il]
+    elif op == "cellh_nonascii":
+        # a stray non-text byte inside the entry: dropping it would leave a valid entry
+        ln = il if mut["line"] == "idx" else fl
+        k = len(C[ln]) // 2
+        C[ln] = C[ln][:k] + b"\xff" + C[ln][k:]
     elif op == "idxline_garble":
         C[il] = re.sub(rb"\d", b"x", C[il], count=1)
     elif op == "idx_text":
